@@ -21,7 +21,7 @@ type Schedule struct {
 	Steps    []Step `json:"steps"`
 }
 
-const stepTimeout = 1500 * time.Millisecond
+const stepTimeout = 3 * time.Second
 
 type replayer struct {
 	env      *Env
